@@ -202,6 +202,7 @@ struct ScnStats {
     fault_in_drop_no_finish_call: u64,
     fault_not_reached: u64,
     transparent_runs: u64,
+    kind_changed: u64,
 }
 
 fn judge(
@@ -225,6 +226,9 @@ fn judge(
         let e = g.entry(s.name).or_default();
         e.runs += 1;
         f(e);
+    };
+    let note_kind = |name: &'static str| {
+        stats.lock().unwrap().entry(name).or_default().kind_changed += 1;
     };
     let mode_word = match case.mode {
         Mode::Plain => "plain".to_string(),
@@ -269,21 +273,13 @@ fn judge(
                     match surf {
                         Some(d) => {
                             let c = &out.calls[ci + d];
-                            // "returns that error": in the call that contains the fault the kind
-                            // must be the injected one
-                            if d == 0 {
-                                if let CallResult::Err { kind: got, .. } = &c.result {
-                                    if *got != kind {
-                                        return viol(
-                                            format!(
-                                                "mode={mode_word} call={} symptom=error-kind-changed got={got:?}",
-                                                c.name
-                                            ),
-                                            &format!("Err of kind {kind:?} carrying the injected marker"),
-                                            format!("kind {got:?}"),
-                                        );
-                                    }
-                                }
+                            // The statement asks for the error to come back, which the marker
+                            // in the source chain proves; whether the ErrorKind survives is
+                            // recorded, not judged (vcf::io::Writer wraps sink errors as
+                            // InvalidInput with the original as source).
+                            let kind_changed = matches!(&c.result, CallResult::Err { kind: got, .. } if d == 0 && *got != kind);
+                            if kind_changed {
+                                note_kind(s.name);
                             }
                             note(&|e| {
                                 if d == 0 {
@@ -327,8 +323,7 @@ fn judge(
                         if let Err(e) = (s.verify)(&out.bytes) {
                             return viol(
                                 format!(
-                                    "mode={mode_word} symptom=all-calls-ok-but-file-incomplete fault-in=drop what={}",
-                                    vmc::normalise_msg(e.split(':').next().unwrap_or(""))
+                                    "mode={mode_word} symptom=all-calls-ok-but-file-incomplete fault-in=drop"
                                 ),
                                 "all explicit calls (incl. the finishing call) returned Ok ⇒ the accepted bytes are a complete file that decodes to what was written",
                                 format!("sink call {f} (issued from Drop) failed; accepted {} bytes: {e}", out.bytes.len()),
@@ -480,6 +475,7 @@ fn main() {
                         "fault_in_drop_protocol_without_finish": v.fault_in_drop_no_finish_call,
                         "fault_index_not_reached": v.fault_not_reached,
                         "transparent_runs(plain/short/interrupted)": v.transparent_runs,
+                        "fault_surfaced_with_a_different_ErrorKind(source_chain_keeps_it)": v.kind_changed,
                     }),
                 )
             })
